@@ -5,6 +5,7 @@ from vlib import Scratch, inject_overlay, Inconclusive, log, write_evidence, rep
 import kprop
 import overlaycommon as O
 import wirecommon as W
+import tablecommon as T
 
 PID = "C16"
 K3 = {
@@ -21,10 +22,11 @@ STATIC = {
                               "tarpc::util::serde::deserialize_io_error_kind_from_u32 (through ServerError's derived Deserialize) on any u32 code",
                               "timer-arming expressions of client::in_flight_requests::InFlightRequests::insert_request and server::in_flight_requests::InFlightRequests::start_request (textual slices) incl. util::TimeUntil / util::MAX_TIMER_DURATION",
                               "rpc.deadline span-field expressions of client::Channel::call and server::BaseChannel::start_request (textual slices) incl. util::wall_clock_deadline and humantime::Rfc3339Timestamp's Display"],
+        "tables": T.FUNCS_S + T.FUNCS_C,
         "outside_claim": ["malformed / truncated frames through LengthDelimitedCodec, real bincode and serde_json decoders on arbitrary bytes (not encodable, DESIGN §1)",
                           "floods of duplicates / unknown ids (need BaseChannel::poll_next)", "'keeps serving afterwards' is checked only natively by the endpoint replay, for the counterexample values"],
     },
-    "assumptions": O.OVERLAY_ASSUMPTIONS + W.WIRE_ASSUMPTIONS[:1] + ["stub: std::time::SystemTime::now -> harness wall clock"],
+    "assumptions": O.OVERLAY_ASSUMPTIONS + W.WIRE_ASSUMPTIONS[:1] + ["stub: std::time::SystemTime::now -> harness wall clock"] + T.ASSUMPTIONS,
 }
 
 
@@ -84,6 +86,12 @@ def main(tier):
             inc.append(("rfc3339_contract", "the humantime Display contract disagrees with the real humantime: " + outr[-300:]))
         recs = dict(r1)
         recs.update(r2)
+        # K5: expiry / duplicate ids / unknown ids must not crash either in-flight table
+        try:
+            r3, v3, k3, i3, w3 = T.run_tables(PID, tier, s, server=["sift_steps2"], client=["cift_steps2"], timeout_s=3000, harness_timeout=1500)
+            recs.update(r3); v2 += v3; k2 += k3; inc += i3; w2 += w3
+        except Inconclusive as e:
+            inc.append(("table-overlays", str(e)))
         return kprop.finish(PID, tier, t0, recs, v1 + v2, k1 + k2, inc, STATIC,
                             {"source_digest": s.src_digest, "kani_wall_s": round(w1 + w2, 1), "extracted_from_source": ext,
                              "delay_queue_contract_validated_natively": okc, "rfc3339_contract_validated_natively": okr})
